@@ -1982,8 +1982,8 @@ def await_(I, v, node):
     return I.ghost.await_(v, node)
 
 
-def cut_loop(I, node, env, spec):
-    return I.ghost.cut_loop(node, env, spec)
+def cut_loop(I, node, env, spec, it=None):
+    return I.ghost.cut_loop(node, env, spec, it)
 
 
 # ========================================================================== stub modules
